@@ -245,6 +245,28 @@ def directed_cases(rng, n):
                        sig="frame|directed|transform-raises-later")
             del snap
         del t, nodes
+        # (3) a node equal to a registered FALSY node (a node class may define __len__ / __bool__) is built next to it:
+        #     construction, duplicate, dataclasses.replace and deserialization never unregister an existing node
+        gc.collect()
+        NODE_REGISTRY.clear()
+        x = zoo.Falsy(n=rng.randint(0, 1))
+        holder = zoo.Un(x) if rng.random() < 0.5 else None
+        snap = _full_snapshot([x] + ([holder] if holder else []))
+        how = rng.choice(["construct", "duplicate", "dataclasses.replace", "as_obj", "transform"])
+        if how == "construct":
+            y = zoo.Falsy(n=x.n)
+        elif how == "duplicate":
+            y = (holder or x).duplicate()
+        elif how == "dataclasses.replace":
+            y = dataclasses.replace(x)
+        elif how == "as_obj":
+            y = type(x).as_obj(x.as_dict())
+        else:
+            y = _Rewrite("rewrite").transform(zoo.Tup((x, zoo.Leaf(v=1))))
+        fail = _full_compare(snap)
+        yield Case("directed:falsy-twin", None, None, True, f"Falsy(n={x.n}) holder={holder is not None}; an equal node comes into being by {how}",
+                   oracle_fail=fail, sig="frame|directed|falsy-twin")
+        del x, y, holder, snap
 
 
 def cases(rng: random.Random, tier: str):
@@ -264,8 +286,14 @@ def cases(rng: random.Random, tier: str):
         with Machine(rng, size) as m:
             box = {"snap": None, "fail": None}
 
-            def settle(readonly=False):
+            def settle(readonly=None):
                 # compare and drop the snapshot *before* the machine observes liveness
+                if readonly is None:
+                    # registry membership of existing nodes may change "only as specified for detach and replace"
+                    # (and when deserialization forces a serialized id: known finding F19 of C03); construction,
+                    # duplicate, dataclasses.replace, serialization, aliasing and dropping references never touch it
+                    readonly = getattr(m, "last_op", "") in ("construct", "new", "duplicate", "dcreplace", "alias", "drop",
+                                                             "serialize", "readonly", "noop")
                 snap = box["snap"]
                 box["snap"] = None
                 if snap is not None and box["fail"] is None:
